@@ -158,6 +158,27 @@ def run(C, R):
                            'that tuple slot', '%s:%s' % (sor[0]['file'], sor[0]['line']))
         # R2: who may call clear
         clear = F.one_fn(impl_adt=STATE, name='clear')
+        # ... and what it does: pop until the buffer reports empty (so the discarded values are dropped here and
+        # now, each once), returning only after is_empty() == true; it does return after >= 1 pop
+        npop = set()
+        for path in E.run(clear['path']):
+            if path.exit != 'return':
+                continue
+            bev = [e for e in path.events if e['k'] == 'call' and e.get('name') in ('is_empty', 'pop', 'len')]
+            pops = [e for e in bev if e['name'] == 'pop']
+            last_ok = bool(bev) and bev[-1]['name'] == 'is_empty' and const_of(E, path.facts, bev[-1]['ret']) == 1
+            alt = all(bev[i]['name'] == ('is_empty' if i % 2 == 0 else 'pop') for i in range(len(bev)))
+            npop.add(min(len(pops), 1))
+            if last_ok and alt:
+                R.ok('C08.R2', '%s|pops until is_empty()|%d pops' % (clear['path'], len(pops)))
+            else:
+                R.fail('C08.R2', [clear['path'], 'clear-does-not-drain'],
+                       'clear() returns on a path that has not observed is_empty() == true after its last pop',
+                       '%s:%s' % (clear['file'], clear['line']), {'trace': trace_summary(path)})
+        if npop != {0, 1}:
+            R.fail('C08.R2', [clear['path'], 'clear-does-not-terminate', str(sorted(npop))],
+                   'clear() has no returning path for a %s buffer' % ('non-empty' if 1 not in npop else 'empty'),
+                   '%s:%s' % (clear['file'], clear['line']))
         callers = sorted(set(c for c, _ in CG.callers_of(clear['path'])))
         for c in callers:
             cf = F.fn(c)
